@@ -49,6 +49,7 @@ type sweepScenario struct {
 
 // parkCalc: ExpiryAccessing(ttl) whose read hook parks the armed goroutine - "reads only ever extend deadlines"
 type parkCalc struct {
+	onCreate func(e Entry[int, int]) // called inside the key's table computation of an inserting write
 	ttl    time.Duration
 	armed  atomic.Bool
 	gid    atomic.Uint64
@@ -56,7 +57,12 @@ type parkCalc struct {
 	resume chan struct{}
 }
 
-func (p *parkCalc) ExpireAfterCreate(Entry[int, int]) time.Duration      { return p.ttl }
+func (p *parkCalc) ExpireAfterCreate(e Entry[int, int]) time.Duration {
+	if p.onCreate != nil {
+		p.onCreate(e)
+	}
+	return p.ttl
+}
 func (p *parkCalc) ExpireAfterUpdate(Entry[int, int], int) time.Duration { return p.ttl }
 func (p *parkCalc) ExpireAfterRead(Entry[int, int]) time.Duration {
 	if p.armed.Load() && verifkit.GoID() == p.gid.Load() && p.armed.CompareAndSwap(true, false) {
@@ -84,9 +90,13 @@ func runReadRace(sc sweepScenario) sweepResult {
 				return
 			}
 			mu.Lock()
-			if e.Cause == CauseExpiration {
+			switch e.Cause {
+			case CauseExpiration:
 				res.Expired++
-			} else {
+			case CauseOverflow: // sized: the cache is filled after the race, the racing entry may be evicted for size if it was kept alive
+				res.Overflow++
+				res.Other++
+			default:
 				res.Other++
 			}
 			mu.Unlock()
@@ -301,6 +311,124 @@ func runGateRace(sc sweepScenario) sweepResult {
 	return res
 }
 
+// runSetIfAbsentRace (C05): SetIfAbsent finds the entry expired and replaces it; while it is inside the key's table computation
+// (the expiry calculator's create hook runs there) a reader that had sampled the clock before the deadline stores the extended
+// deadline into the node that is being replaced.  Whatever SetIfAbsent returns, the value it stored must be known to the
+// policies afterwards: the orderings enumerate exactly the entries iteration yields, and once every deadline has passed by
+// more than a tick nothing is left.
+func runSetIfAbsentRace(sc sweepScenario) sweepResult {
+	res := sweepResult{T: "sweep", Sc: sc, TickNs: 1 << 30, NoPressure: 1}
+	clk := &stallClock{never: make(chan time.Time), stalled: make(chan struct{}), resume: make(chan struct{})}
+	clk.now.Store(int64(5) << 30)
+	calc := &parkCalc{ttl: time.Duration(sc.TTL), parked: make(chan struct{}), resume: make(chan struct{})}
+	var mu sync.Mutex
+	o := &Options[int, int]{
+		Clock:            clk,
+		ExpiryCalculator: calc,
+		MaximumSize:      sc.Max + 4,
+		OnDeletion: func(e DeletionEvent[int, int]) {
+			if e.Key != 1 {
+				return
+			}
+			mu.Lock()
+			if e.Cause == CauseExpiration {
+				res.Expired++
+			} else {
+				res.Other++
+			}
+			mu.Unlock()
+		},
+	}
+	if sc.SyncExec == 1 {
+		o.Executor = func(fn func()) { fn() }
+	}
+	c := Must(o)
+	defer c.StopAllGoroutines()
+	c.Set(1, 11)
+	c.CleanUp()
+	clk.now.Add(sc.TTL - 1000) // shortly before the deadline
+	rdone := make(chan struct{})
+	go func() {
+		defer close(rdone)
+		calc.gid.Store(verifkit.GoID())
+		calc.armed.Store(true)
+		c.GetIfPresent(1)
+	}()
+	select {
+	case <-calc.parked:
+	case <-time.After(3 * time.Second):
+		res.Hang = 1
+		return res
+	}
+	clk.now.Add(1000 + sc.Jump) // the deadline passes
+	var once sync.Once
+	calc.onCreate = func(e Entry[int, int]) {
+		if e.Value != 99 {
+			return
+		}
+		once.Do(func() { // inside the computation of the writer, after it has found the old entry expired
+			calc.resume <- struct{}{}
+			select {
+			case <-rdone:
+			case <-time.After(3 * time.Second):
+				res.Hang = 1
+			}
+		})
+	}
+	wdone := make(chan struct{})
+	go func() {
+		defer close(wdone)
+		var ok bool
+		switch sc.Op {
+		case "sia.set":
+			_, ok = c.Set(1, 99)
+		default:
+			_, ok = c.SetIfAbsent(1, 99)
+		}
+		if ok {
+			res.Inserted = 1
+		}
+	}()
+	select {
+	case <-wdone:
+	case <-time.After(5 * time.Second):
+		res.Hang = 1
+		return res
+	}
+	select {
+	case <-rdone:
+	default: // the writer never reached the create hook: let the reader go
+		select {
+		case calc.resume <- struct{}{}:
+		case <-time.After(time.Second):
+		}
+		<-rdone
+	}
+	time.Sleep(2 * time.Millisecond)
+	c.CleanUp()
+	time.Sleep(2 * time.Millisecond)
+	c.CleanUp()
+	res.EstMid = c.EstimatedSize()
+	for range c.All() {
+		res.Live++
+	}
+	for range c.Coldest() {
+		res.Cold++
+	}
+	clk.now.Add(sc.Later)
+	c.CleanUp()
+	time.Sleep(2 * time.Millisecond)
+	c.CleanUp()
+	res.Est = c.EstimatedSize()
+	if _, ok := c.GetIfPresent(1); ok {
+		res.Visible = 1
+	}
+	time.Sleep(2 * time.Millisecond)
+	mu.Lock()
+	defer mu.Unlock()
+	return res
+}
+
 type sweepResult struct {
 	T       string        `json:"t"`
 	Sc      sweepScenario `json:"sc"`
@@ -318,6 +446,8 @@ type sweepResult struct {
 	NoPressure int `json:"nopressure"` // 1 = the cache was never above its maximum (or has none) during the scenario
 	MidPresent int `json:"midpresent"` // 1 = the entry was present (GetEntryQuietly) right after the race
 	MidAlive   int `json:"midalive"`   // 1 = its deadline (as reported then) lay after the clock value of the race
+	Cold       int `json:"cold"`       // sia.race: entries Coldest yields after the race (Live = entries All yields)
+	Inserted   int `json:"inserted"`   // sia.race: 1 = SetIfAbsent reported that it stored its value
 }
 
 func runSweepScenario(sc sweepScenario) sweepResult {
@@ -420,6 +550,10 @@ func TestVerifSweep(t *testing.T) {
 	defer w.Flush()
 	enc := json.NewEncoder(w)
 	for _, sc := range scs {
+		if len(sc.Op) > 4 && sc.Op[:4] == "sia." {
+			_ = enc.Encode(runSetIfAbsentRace(sc))
+			continue
+		}
 		if len(sc.Op) > 5 && sc.Op[:5] == "gate." {
 			_ = enc.Encode(runGateRace(sc))
 			continue
